@@ -186,6 +186,15 @@ def run_case(case):
                    lambda ctx: events.append((stamp(), 'ctx_closed')))
     wsgi.event_manager.add_listener('wsgi_close',
                    lambda ctx: events.append((stamp(), 'wsgi_close')))
+    if case['rclass'][0] == 'wsdl' and case['plan_args'][0] % 2:
+        # the documented use of the `wsdl` event: a listener that edits the
+        # document about to be served (e.g. to publish a proxy URL)
+        def _edit_wsdl(ctx):
+            if ctx.transport.wsdl is not None:
+                ctx.transport.wsdl = ctx.transport.wsdl.replace(
+                    b'<wsdl:definitions', b'<!-- served through sim.invalid '
+                    b'-->\n<wsdl:definitions', 1)
+        wsgi.event_manager.add_listener('wsdl', _edit_wsdl)
     cons = case['consumer']
     consumer = (cons[0], cons[1]) if cons[0] == 'abort' else (cons[0],)
     o = call_wsgi(wsgi, req, read_plan=plan, content_length=cl,
